@@ -54,6 +54,7 @@ WIN_EXPECTED = [   # (cfg, violated invariant, label)
     ("Revert_win_x_snapshot.cfg", "AnswersAsTwin", "shutdown snapshot not consumed"),
 ]
 WIN_EXPECTED_THOROUGH = [
+    ("Revert_win_x_noclear.cfg", "DiskAsTwin", "reverted block's column not cleared"),
     ("Revert_win_x_purgeallbutlast.cfg", "AnswersAsTwin", "cache purged at every offset but the last block of a window"),
 ]
 
@@ -61,8 +62,7 @@ WIN_EXPECTED_THOROUGH = [
 def win_features(b):
     """(situation before, action, situation after) triples of one window behaviour. A situation is
     the model's own tag of the state (head position relative to the window boundary, running
-    filter initialised?, cache warm?, snapshot on disk?); an action is its name plus, for a query,
-    whether it reaches below the running window."""
+    filter initialised?, cache warm?, snapshot on disk?)."""
     out = set()
     prev = ("init",)
     for st in b:
@@ -79,34 +79,57 @@ def win_features(b):
     return out
 
 
+def win_kills(b):
+    """{alternative mechanism: (action, head position) of the step that tells it from the code's}"""
+    out = {}
+    for st in b:
+        for alt in st.get("kills", []):
+            out[alt] = (st["a"]["name"], st["tag"]["pos"])
+    return out
+
+
+WIN_KILLS_EACH = 2      # behaviours kept per alternative mechanism (in different situations if there are)
+
+
 def win_behaviours(ctx, n_pick, runs, depth):
-    """Many cheap simulated behaviours, of which a greedy cover of the situation triples is kept
-    (ties and the remainder in generation order, so the choice is deterministic per seed)."""
-    pool = []
-    for i in range(runs):
+    """Many cheap simulated behaviours, of which a few are kept: first, for every alternative
+    mechanism of the model (MCRevertWin!AltMechs) behaviours that distinguish it from the code's
+    mechanism; then a greedy cover of the situation triples. Deterministic per seed."""
+    pool, alts = [], set()
+    for i in range(runs + 2):
         pool += ctx.tlc_simulate("chain", "RevertWinMBT.tla", "Revert_win_sim.cfg", depth=depth,
                                  seed=ctx.seed * 1000 + 700 + i, timeout=600)
+        kills = [win_kills(b) for b in pool]
+        alts = set().union(*[set(k) for k in kills])
+        if i + 1 >= runs and len(alts) >= 6:
+            break
+    if len(alts) < 6:
+        raise vlib.Broken("window behaviours: only the alternatives %s are distinguished by %d generated behaviours" % (sorted(alts), len(pool)))
     feats = [win_features(b) for b in pool]
     universe = set().union(*feats)
     covered, picked = set(), []
+    for alt in sorted(alts):
+        seen_sit = set(kills[i][alt] for i in picked if alt in kills[i])
+        have = sum(1 for i in picked if alt in kills[i])
+        while have < WIN_KILLS_EACH and len(picked) < n_pick:
+            cands = [i for i in range(len(pool)) if i not in picked and alt in kills[i]]
+            if not cands:
+                break
+            best = max(cands, key=lambda i: (kills[i][alt] not in seen_sit, len(feats[i] - covered), -i))
+            picked.append(best)
+            covered |= feats[best]
+            seen_sit.add(kills[best][alt])
+            have += 1
     while len(picked) < n_pick:
-        best, gain = None, 0
-        for i, f in enumerate(feats):
-            if i in picked:
-                continue
-            g = len(f - covered)
-            if g > gain:
-                best, gain = i, g
-        if best is None:
+        cands = [i for i in range(len(pool)) if i not in picked]
+        if not cands:
             break
+        best = max(cands, key=lambda i: (len(feats[i] - covered), -i))
         picked.append(best)
         covered |= feats[best]
-    for i in range(len(pool)):            # room left: fill with the first behaviours not yet picked
-        if len(picked) >= n_pick:
-            break
-        if i not in picked:
-            picked.append(i)
     ctx.coverage["window_situation_triples"] = "%d of %d seen in %d generated behaviours" % (len(covered), len(universe), len(pool))
+    ctx.coverage["window_alternative_mechanisms_distinguished"] = {
+        alt: sum(1 for i in picked if alt in kills[i]) for alt in sorted(alts)}
     return [{"seed": ctx.seed * 100000 + 70000 + i, "steps": pool[i]} for i in picked]
 
 
